@@ -126,6 +126,72 @@ pub fn run_case(ctx: &mut Ctx, fam: &str, k: u64, r: &mut Rng) {
                     }
                 }
             }
+            // a constructed array is a plain one whatever state its children are in: untracked, no gradient, no graph
+            // (nothing flows from it into a tracked child), owning its buffer; a kept child stays usable and unchanged
+            {
+                let child_state = r.below(4);
+                let copies = if r.chance(1, 2) { 1 } else { r.range(2, 3) };
+                let res = guard(|| {
+                    let child = match child_state {
+                        0 => arr(&d, &v),
+                        1 => arr(&d, &v).tracked(),
+                        2 => {
+                            // an operation result with a graph
+                            let z = Array::from(d.clone()).tracked();
+                            &arr(&d, &v).tracked() + &z
+                        }
+                        _ => {
+                            let a = arr(&d, &v).tracked();
+                            let y = &a * &a;
+                            y.backward(None);
+                            a
+                        }
+                    };
+                    let kids: Vec<Array> = (0..copies).map(|_| child.clone()).collect();
+                    let nest = Array::from(kids);
+                    let nd = nest.dimensions().to_vec();
+                    let nv = vals(&nest);
+                    let tracked = is_tracked(&nest);
+                    let has_grad = nest.gradient().is_some();
+                    // differentiate something built on the nest: the child must not receive anything from it
+                    let before = grad_of(&child);
+                    let w = Array::from(nd.clone()).tracked();
+                    let e = &nest + &w;
+                    e.backward(None);
+                    let after = grad_of(&child);
+                    drop(e);
+                    drop(w);
+                    let owns = guard(move || {
+                        let _v: Vec<Float> = Vec::from(nest);
+                    })
+                    .is_ok();
+                    (nd, nv, tracked, has_grad, before == after, owns, vals(&child))
+                });
+                ctx.count("nests_of_children_in_various_states", 1);
+                match res {
+                    Err(m) => ctx.violation("C16|construct|nest-of-stateful-children-panic", format!("nesting {} clone(s) of a child in state {} (dims {:?}) panicked: {}", copies, child_state, d, m)),
+                    Ok((nd, nv, tracked, has_grad, child_untouched, owns, cv)) => {
+                        let mut wd = vec![copies];
+                        wd.extend(&d);
+                        let wv: Vec<f64> = (0..copies).flat_map(|_| v.clone()).collect();
+                        if nd != wd || nv != wv {
+                            ctx.violation("C16|construct|nest-of-stateful-children-values", format!("nest of {} clone(s) of Array{:?} (state {}): dims {:?} values {}", copies, d, child_state, nd, short(&nv)));
+                        }
+                        if tracked || has_grad || !child_untouched {
+                            ctx.violation(
+                                "C16|construct|nest-not-plain",
+                                format!("nest of {} clone(s) of a child in state {} (dims {:?}): tracked={} holds-gradient={} child-gradient-unchanged-by-a-pass-over-the-nest={}", copies, child_state, d, tracked, has_grad, child_untouched),
+                            );
+                        }
+                        if !owns {
+                            ctx.violation("C16|construct|nest-shares-buffer", format!("Vec::from(nest of {} clone(s) of a live child, state {}, dims {:?}) panicked: the constructed array does not own its buffer", copies, child_state, d));
+                        }
+                        if cv != v {
+                            ctx.violation("C16|construct|child-changed", format!("child changed by nesting it: {:?}", d));
+                        }
+                    }
+                }
+            }
             // Vec::from round trip
             match guard(|| Vec::<Float>::from(Array::from((d.clone(), tf(&v))))) {
                 Ok(back) => {
